@@ -65,6 +65,7 @@ type State struct {
 	Cells map[*Cell]*Term
 	// Go-side knowledge that survives only while all merged states agree
 	Clos   map[*Term]*Closure // func-value term -> closure
+	CellAddr map[*Cell]*Addr // pointer-typed cells currently holding a Go-side (interior) address
 	Defers []*DeferRec
 	Dead   bool
 	Epoch  int // id of the last havoc-everything event (0 = none): names never touched since read as fresh per epoch
@@ -90,6 +91,12 @@ func (s *State) Clone() *State {
 		n.Clos[k] = v
 	}
 	n.Defers = append([]*DeferRec{}, s.Defers...)
+	if len(s.CellAddr) > 0 {
+		n.CellAddr = make(map[*Cell]*Addr, len(s.CellAddr))
+		for k, v := range s.CellAddr {
+			n.CellAddr[k] = v
+		}
+	}
 	return n
 }
 
@@ -209,6 +216,23 @@ func (X *Exec) merge2(a, b *State) *State {
 	for k, v := range b.Clos {
 		if _, ok := a.Clos[k]; !ok {
 			n.Clos[k] = v
+		}
+	}
+	for c, aa := range a.CellAddr {
+		_, inB := b.Cells[c]
+		if ba, ok := b.CellAddr[c]; (ok && ba == aa) || !inB {
+			if n.CellAddr == nil {
+				n.CellAddr = map[*Cell]*Addr{}
+			}
+			n.CellAddr[c] = aa
+		}
+	}
+	for c, ba := range b.CellAddr {
+		if _, inA := a.Cells[c]; !inA {
+			if n.CellAddr == nil {
+				n.CellAddr = map[*Cell]*Addr{}
+			}
+			n.CellAddr[c] = ba
 		}
 	}
 	// defers: must agree (same records); otherwise guard them
